@@ -127,7 +127,10 @@ def one_case(rng, label):
                     'notes': [msg]}
         # the hybrid parser accepts the bytes: open_fp failed elsewhere (the backup GPT was written over the
         # volume tail, known finding c12:gpt-backup-overwrites-volume-tail) -- not a case for this model
-        print('DROPPED %s: %s (hybrid parse itself succeeds)' % (label, msg))
+        view = hh.decode(img, [])
+        vol = run.iso.pvd.space_size * 2048
+        over = bool(view) and bool(view[3]) and 0 <= view[8][0] < vol
+        print('DROPPED(%s) %s: %s (hybrid parse itself succeeds)' % ('tail-overwritten' if over else 'other', label, msg))
         return None
     h = iso2.isohybrid_mbr
     fields = [[-1]] if h is None else fields_of(h)
